@@ -92,6 +92,17 @@ def corpus(ctx, texts):
     return list(dict.fromkeys(out))
 
 
+def capstone_obligations(res, prefix):
+    """proof obligations of Props/Capstone.v (source-level corollaries of compile_bash); `prefix` selects the
+    theorem names the calling check reports (e.g. 'C14_'): one-liner for the check of the property they serve"""
+    from .. import coqcheck
+    extra = coqcheck.check_property('Capstone')
+    if not extra['ok']:
+        res.violations.append(report.Violation('proof obligations of Props/Capstone.v (source-level corollaries of compile_bash) no longer check',
+                                               dict(kind='proof-obligation', property='Capstone', errors=extra['errors'][:5]), found_input=False))
+    res.extra['theorems_Capstone'] = [t for t in extra['theorems'] if t.startswith(prefix)]
+
+
 def tie(ctx, res, texts, label='end_to_end_bash', binary_max=None):
     """texts: list of bytes (grammar sources).  Appends violations to res, fills res.extra[label]; returns the number
     of scripts reproduced byte for byte.  The first `binary_max` texts (default: 250 quick / 4000 thorough) are
